@@ -126,6 +126,7 @@ type Exec struct {
 	reached    map[string]int
 	ghost      map[string]Value
 	errSeq     int
+	closedChans map[int]bool // channels closed on this path
 	lastDecs   []dec
 	lastLevels []int
 	pending    []workItem // alternatives discovered on this path
@@ -1004,7 +1005,30 @@ func (ex *Exec) exec(f *Frame, in ssa.Instruction) {
 		ex.set(f, x, ex.convert(ex.get(f, x.X), x.X.Type(), x.Type()))
 	case *ssa.MultiConvert:
 		ex.set(f, x, ex.convert(ex.get(f, x.X), x.X.Type(), x.Type()))
-	case *ssa.Select, *ssa.Send:
+	case *ssa.Select:
+		// only the polling form is supported: a receive from a closed channel is ready, anything else is
+		// not (nothing in an interpreted run ever sends), so the default case is taken
+		if x.Blocking {
+			ex.inconclusive("blocking select (channels)")
+		}
+		ex.stubsSeen["select with default: a receive is ready only on a closed channel"] = true
+		tup := x.Type().(*types.Tuple)
+		res := make(TupleV, tup.Len())
+		for i := 0; i < tup.Len(); i++ {
+			res[i] = ex.zero(tup.At(i).Type())
+		}
+		idx := -1
+		for i, st := range x.States {
+			if st.Dir == types.RecvOnly {
+				if ch, ok := ex.get(f, st.Chan).(ChanV); ok && ex.closedChans[ch.id] {
+					idx = i
+					break
+				}
+			}
+		}
+		res[0] = ex.tc.Const(BV(64), uint64(int64(idx)))
+		ex.set(f, x, res)
+	case *ssa.Send:
 		ex.inconclusive(fmt.Sprintf("unsupported instruction %T (channels)", in))
 	default:
 		ex.inconclusive(fmt.Sprintf("unsupported instruction %T", in))
